@@ -33,6 +33,37 @@ def run(run):
                 run.ok("C16.L1", "rules joined by a newline", where(b))
             else:
                 run.bad("C16.L1", "rule-separator", where(b), "css rules are joined by %s, not by a newline" % expr_str(sep))
+            def check_template(body_path, r, item_is):
+                fp = format_parts(r)
+                if fp is None:
+                    run.bad("C16.L1", "rule-template", where(prog.bodies[body_path]), "rule text is not a recognisable format!: %s" % expr_str(r)[:120])
+                    return
+                pieces, args = fp
+                names = [item_is(strip(a)) for kind, a in args]
+                itn = iter(names)
+                text = "".join(p[1] if p[0] == "lit" else next(itn, "?") for p in pieces)
+                if text == ".svgbob .NAME{ DECL }":
+                    run.ok("C16.L1", "rule template instantiates to `.svgbob .NAME{ DECL }`", where(prog.bodies[body_path]), repr(pieces))
+                else:
+                    run.bad("C16.L1", "rule-template", where(prog.bodies[body_path]),
+                            "the css rule for entry (NAME, DECL) is `%s`, the documented form is `.svgbob .NAME{ DECL }`" % text)
+            # alternative shape: a `for` loop pushing one formatted rule per entry
+            if lst[0] == "phi" and not ok_shape:
+                pushes = [x for x in lst[1] if strip(x)[0] == "mutated_by" and strip(x)[1].endswith("Vec::<T, A>::push")]
+                inits = [x for x in lst[1] if strip(x)[0] == "call" and re.search(r"Vec::<T>::new$|vec::from_elem|Vec::<T, A>::with_capacity", strip(x)[1])]
+                if len(pushes) == 1 and len(pushes) + len(inits) == len(lst[1]):
+                    val = strip(pushes[0])[2][1]
+                    over = mentions(val, lambda z: z[0] == "call" and re.search(r"<impl \[T\]>::iter$", z[1]) and strip(z[2][0]) == ("param", 1, ("css_styles",)))
+                    rev = mentions(val, lambda z: z[0] == "call" and re.search(r"Iterator::rev$|sort|Iterator::skip|Iterator::take|Iterator::filter", z[1]))
+                    if over and not rev:
+                        ok_shape = True
+                        run.ok("C16.L1", "one rule per css_styles entry, in entry order (for loop over the slice, no reordering adaptor)", where(b))
+                        def item_is(a):
+                            if a[0] == "field" and mentions(a, lambda z: z[0] == "call" and z[1].endswith("Iterator>::next")):
+                                idx = [f for f in a[2] if f.isdigit()]
+                                return {"0": "NAME", "1": "DECL"}.get(idx[-1] if idx else "", "?")
+                            return "?"
+                        check_template(lc, val, item_is)
             if lst[0] == "call" and re.search(r"Iterator::collect$", lst[1]):
                 mp = strip(lst[2][0])
                 if mp[0] == "call" and re.search(r"Iterator::map$", mp[1]):
